@@ -74,6 +74,11 @@ pub const MK_PANIC: u64 = 0xF600_0000_0000_0000;
 pub const T_CURSOR: &[&str] = &["C04"];
 pub const T_CHUNK: &[&str] = &["C03", "C04"];
 pub const T_CHUNKLEN: &[&str] = &["C03"];
+pub const T_CHUNKOVER: &[&str] = &["C03", "C04", "C02"];
+pub const T_CHUNKUNDER: &[&str] = &["C03", "C04"];
+pub const T_REVIVE_IDX: &[&str] = &["C05", "C04", "C02"];
+pub const T_SKIP_IDX: &[&str] = &["C06", "C02"];
+pub const T_LEN_END_SKIP: &[&str] = &["C11", "C06", "C05"];
 pub const T_INDEX: &[&str] = &["C02", "C04"];
 pub const T_REVIVE: &[&str] = &["C05", "C04"];
 pub const T_SKIP: &[&str] = &["C06"];
@@ -169,11 +174,12 @@ impl Env {
     }
 
     /// a pull delivered although the model says the iteration is over
-    fn unexpected_delivery(&mut self, what: &str, desc: String) {
+    fn unexpected_delivery(&mut self, what: &str, desc: String, with_index: bool) {
         if self.m.skipped {
-            self.fail(T_SKIP, "after-skip", format!("{what} delivered {desc} after skip_to_end"));
+            self.fail(if with_index { T_SKIP_IDX } else { T_SKIP }, "after-skip", format!("{what} delivered {desc} after skip_to_end"));
         } else if self.m.cursor >= self.m.len {
-            self.fail(T_REVIVE, "revived", format!("{what} delivered {desc} after the end had been reached"));
+            // with an index: a sequential iteration of the source produces nothing at that position (C02)
+            self.fail(if with_index { T_REVIVE_IDX } else { T_REVIVE }, "revived", format!("{what} delivered {desc} after the end had been reached"));
         } else {
             self.fail(T_ZERO, "zero-chunk", format!("{what} delivered {desc} for a request of size 0"));
         }
@@ -201,7 +207,7 @@ impl Env {
             }
             (Some((idx, v)), None) => {
                 let s = v.seen();
-                self.unexpected_delivery(what, format!("an element (index {idx:?}, key {})", s.key));
+                self.unexpected_delivery(what, format!("an element (index {idx:?}, key {})", s.key), idx.is_some());
                 drop(v);
             }
             (None, Some((b, _))) => {
@@ -238,7 +244,7 @@ impl Env {
                 }
             }
             (Some((b, l)), None) => {
-                self.unexpected_delivery(what, format!("a chunk (begin {b}, len {l})"));
+                self.unexpected_delivery(what, format!("a chunk (begin {b}, len {l})"), true);
                 None
             }
             (None, Some((eb, ee))) => {
@@ -261,7 +267,7 @@ impl Env {
                 Some(x) => {
                     if b + *done >= e {
                         let s = x.seen();
-                        self.fail(T_CHUNKLEN, "len-mismatch", format!("{what}: chunk yields more than the {} announced elements (key {})", e - b, s.key));
+                        self.fail(T_CHUNKOVER, "len-mismatch", format!("{what}: chunk yields more than the {} announced elements: key {} arrives as position {}", e - b, s.key, b + *done));
                         return;
                     }
                     self.take(x, b + *done, true);
@@ -269,7 +275,7 @@ impl Env {
                 }
                 None => {
                     if b + *done != e {
-                        self.fail(T_CHUNKLEN, "len-mismatch", format!("{what}: chunk announced {} elements but yielded {}", e - b, *done));
+                        self.fail(T_CHUNKUNDER, "len-mismatch", format!("{what}: chunk announced {} elements but yielded {}", e - b, *done));
                     }
                     return;
                 }
@@ -307,7 +313,8 @@ impl Env {
         let rem = self.m.remaining();
         if self.ki.known {
             if l != Some(rem) {
-                let tags = if self.m.skipped { T_LEN_SKIP } else if rem == 0 { T_LEN_END } else { T_LEN };
+                let ended = self.m.end1 || self.m.cursor >= self.m.len;
+                let tags = if self.m.skipped && ended { T_LEN_END_SKIP } else if self.m.skipped { T_LEN_SKIP } else if rem == 0 { T_LEN_END } else { T_LEN };
                 self.fail(tags, "len-wrong", format!("{what} is {l:?} but {rem} elements will still be delivered"));
             }
         } else {
@@ -460,7 +467,11 @@ where
                     }
                 }
                 SOp::ForEach(n) | SOp::EnumForEach(n) | SOp::Fold(n) => {
-                    let n = resolve(n, env.len);
+                    let mut n = resolve(n, env.len);
+                    if env.ki.wrapper && n > 4096 {
+                        // chunk sizes > 1 go through a buffered iterator, which allocates chunk_size slots for arbitrary iterators
+                        n = 4096;
+                    }
                     let mut got = std::mem::take(&mut env.scratch);
                     got.clear();
                     if n == 0 {
@@ -686,6 +697,15 @@ pub fn end_checks(env: &mut Env, source_still_alive: bool) {
 pub fn alloc_check(env: &mut Env) {
     let (blocks, bytes) = alloc::live();
     env.obs.push(MK_ALLOC | blocks as u64);
+    if blocks != 0 || bytes != 0 {
+        if let Some(v) = env.viol.as_mut() {
+            if v.tags == T_LEDGER {
+                // an element that is never destroyed also leaks the memory it owns
+                v.tags = &["C08", "C15"];
+                v.detail.push_str(&format!("; {blocks} heap block(s) / {bytes} bytes still live"));
+            }
+        }
+    }
     if (blocks != 0 || bytes != 0) && env.ok() {
         env.fail(T_ALLOC, "leak", format!("{blocks} heap block(s) / {bytes} bytes that belonged to the consumed collection or were allocated by the iterator are still live after everything was dropped"));
     }
